@@ -17,12 +17,14 @@ def nested_cfg(rng, u):
     return dict(cap=2, hasher=gen.table_hasher({}), prefix=pre, hot=[13, 14, 15, 29, 30, 7, 20, 21, 22, 23], universe=[7, 13, 14, 15, 29, 30] + list(range(20, 44)))
 
 
-def iter_job(rng, jid, kind_of="iter"):
+def iter_job(rng, jid, kind_of="iter", tree_only=False):
     C = gen.configs()
     C["nested"] = nested_cfg
     shapes = ["nested", "nested", "nested", "two_bins", "thr16", "same_bin_16", "list8", "tree9", "tree9", "tree_mixed", "tree_mixed", "tree_shrink", "thr64", "cap0_equal"]
     if kind_of == "retain":
         shapes += ["tree9", "tree_mixed", "tree9", "tree_mixed", "list8", "same_bin_16"]
+    if tree_only:
+        shapes = ["tree9", "tree_mixed", "tree9", "tree_mixed", "tree_shrink"]
     name = rng.choice(shapes)
     u = gen.Uids()
     c = C[name](rng, u)
@@ -56,11 +58,19 @@ def iter_job(rng, jid, kind_of="iter"):
     job = {"id": jid, "cfg": name, "kind": kind, "pin": rng.random() < 0.4, "scope": rng.choice(["thread", "op"]),
            "hasher": c["hasher"], "cap": c["cap"], "batch": rng.choice([1, 0]), "prefix": prefix, "threads": threads,
            "sched": gen.schedule(rng, len(threads), 600), "finals": c["universe"], "rec": [], "budget": 400000}
-    if rng.random() < 0.45:
+    r = rng.random()
+    if r < (0.45 if kind_of == "iter" else 0.3):
         # scripted: the iterating thread is stopped at its j-th value load, the writers run to completion
         # (whole, possibly nested, resizes complete between two next() calls), then the iteration goes on
         j = rng.randint(1, 6)
         job["script"] = [{"run": 0, "until": {"kind": "load", "ty": "value", "nth": j, "before": True}}] + \
+                        [{"finish": t} for t in range(1, len(threads))] + [{"finish": 0}]
+    elif kind_of == "retain" and r < 0.65:
+        # scripted: the retaining thread has judged an entry and is stopped just before it takes the bin lock
+        # for its j-th removal; the writers (replacements of present keys among them) run to completion; then
+        # the conditional removal goes on with a possibly stale observation
+        j = rng.randint(1, 4)
+        job["script"] = [{"run": 0, "until": {"kind": "lock", "nth": j, "before": True}}] + \
                         [{"finish": t} for t in range(1, len(threads))] + [{"finish": 0}]
     return job
 
